@@ -48,7 +48,7 @@ def probe(backend, feats, options):
         L.append('%option reject')          # auto-detection of yyreject() is broken (D19); the dedicated variant omits this
     if 'stack' in feats and 'stack' not in options: L.append('%option stack')
     if any(o.startswith('bison-') for o in options):
-        L.append('%top{'); L.append('typedef int YYSTYPE;'); L.append('typedef struct YYLTYPE { int first_line, first_column, last_line, last_column; } YYLTYPE;'); L.append('}')
+        L.append('%top{'); L.append('#ifndef VERIF_TOP_TYPES'); L.append('#define VERIF_TOP_TYPES'); L.append('typedef int YYSTYPE;'); L.append('typedef struct YYLTYPE { int first_line, first_column, last_line, last_column; } YYLTYPE;'); L.append('#endif'); L.append('}')
     if any(o.startswith('yyclass=') for o in options):
         L.append('%{'); L.append('class VerifLexer : public yyFlexLexer { public: int yylex(); };'); L.append('%}')
     if any(o.startswith('extra-type=') for o in options):
@@ -165,7 +165,7 @@ def core_variants():
     add('nr_lexcompat', 'nr', PLAIN, ['lex-compat'])
     add('nr_posix', 'nr', PLAIN, ['posix-compat'])
     add('nr_caseless', 'nr', NOREJ, ['caseless'])
-    add('nr_nounistd', 'nr', PLAIN, ['nounistd'])
+    add('nr_nounistd', 'nr', PLAIN, ['nounistd', 'never-interactive'])   # the manual: with nounistd the user supplies isatty(); never-interactive avoids the call
     add('nr_noline', 'nr', PLAIN, ['noline'])
     add('nr_nodefault', 'nr', PLAIN, ['nodefault'])
     add('nr_bufsize', 'nr', PLAIN, ['bufsize=4096', 'yylmax=1024', 'array'])
@@ -258,7 +258,9 @@ def variant_from_vector(vec, name):
     if vec['bol']: feats.append('bol')
     if vec['vartrail']: feats.append('vartrail')
     if vec['stack']: feats.append('stack')
-    return Variant(name, b, feats, opts, header=vec['header'], tables=vec['tablesfile'] != 'incode')
+    if vec['reject']: opts.append('reject')      # declared explicitly: the undeclared spelling is D19's dedicated variant
+    # -L: no #line directives, so that compiler diagnostics point into the generated file (stable keys)
+    return Variant(name, b, feats, opts, flags=['-L'], header=vec['header'], tables=vec['tablesfile'] != 'incode')
 
 def covering_array(strength, seed, limit=None):
     """greedy t-wise covering array over DIMS (IPO-like random greedy).  Deterministic for a seed."""
@@ -294,7 +296,7 @@ def _instantiate_one(art, v, outroot):
     v.dir = d
     meta_p = os.path.join(d, 'meta.json')
     spec = v.spec()
-    sig = hashlib.sha1((spec + '\0' + ' '.join(v.flags)).encode()).hexdigest()
+    sig = hashlib.sha1(('v2\0' + spec + '\0' + ' '.join(v.flags)).encode()).hexdigest()
     if os.path.exists(meta_p):
         try:
             m = json.load(open(meta_p))
@@ -305,7 +307,9 @@ def _instantiate_one(art, v, outroot):
         except Exception:
             pass
     for f in os.listdir(d):
-        os.remove(os.path.join(d, f))
+        fp = os.path.join(d, f)
+        if os.path.isdir(fp): shutil.rmtree(fp, ignore_errors=True)
+        else: os.remove(fp)
     open(os.path.join(d, 'spec.l'), 'w').write(spec)
     out = 'lex.cc' if v.backend == 'cxx' else 'lex.c'
     env = dict(os.environ); env['LC_ALL'] = 'C'
